@@ -88,7 +88,8 @@ PROPS = {
     "C12": {
         "clause": "NARROW: typing F(A) -> F(B) of functor application as label-array term equalities under the "
                   "documented functor contract (A_F1, A_F2); all glue unwraps discharged; results well-formed",
-        "entries": ["strict::functor::traits::", "strict::functor::identity::", "lax::functor::dyn_functor::"],
+        "entries": ["strict::functor::traits::", "strict::functor::identity::", "lax::functor::dyn_functor::",
+                    "lax::functor::traits::try_define_map_arrow", "lax::functor::traits::map_arrow_witness"],
         "anchors": ["strict::functor::traits::define_map_arrow", "lax::functor::dyn_functor::define_map_arrow"],
         "rules": [], "level": "proof",
     },
@@ -199,12 +200,21 @@ PROPS.update({
         "rules": ["REFCELL", "FORGET"], "level": "proof",
     },
     "C20": {
-        "clause": "NARROW: the strict algorithms are written against the array interface only — every public item of the "
+        "clause": "NARROW: (a) the strict algorithms are written against the array interface only — every public item of the "
                   "generic modules is generic in K (audit over the exported program) and type-checks at a second, "
                   "foreign ArrayKind (compile-pass witness); external crates cannot bypass the checked constructors of "
-                  "the non_exhaustive types (compile-fail witness)",
-        "entries": [],
-        "anchors": ["array::traits::Array::to_range"],
+                  "the non_exhaustive types (compile-fail witness); (b) the public consumers of the backend's open choices "
+                  "(connected_components numbering, scatter filler, argsort tie order, sparse_bincount key order) meet "
+                  "their typing / well-formedness / value obligations when those primitives are modelled by their "
+                  "documented contract ALONE (uninterpreted numbering / filler / order), so no proof step can lean on an "
+                  "accident of the Vec backend",
+        "entries": [f"<{S_OH}<K, O, A> as category::traits::Arrow>::compose", f"<&{S_OH}<K, O, A> as std::ops::Shr<",
+                    f"{S_H}::<K, O, A>::coequalize_vertices", f"{FFN}::<K>::coequalizer",
+                    f"{FFN}::<K>::coequalizer_universal", "finite_function::arrow::coequalizer_universal",
+                    "strict::functor::traits::define_map_arrow", "strict::layer::layer", "strict::layer::layered_operations",
+                    "strict::eval::eval", "::is_acyclic", "HypergraphArrow::<K, O, A>::is_convex_subgraph"],
+        "anchors": ["array::traits::Array::to_range", f"{S_H}::<K, O, A>::coequalize_vertices", f"{FFN}::<K>::coequalizer",
+                    "strict::layer::layer", "strict::eval::eval"],
         "rules": ["GENERIC", "NONEXH"], "level": "other",
     },
 })
